@@ -103,6 +103,29 @@ func gzMembersExec(c *Ctx, op string) {
 			c.PropFail("format", fmt.Sprintf("fileset %s as a tar.gz in one gzip member scans to %s, the same tar in two members (boundary after entry %d) to %s", n, one, kk, multi), op)
 		}
 	}
+	// the optional fields of a gzip member header (RFC 1952: FNAME as `gzip x.tar` writes it, FCOMMENT, FEXTRA as bgzip
+	// writes it, an mtime, an OS byte) are no part of the fileset: same id as the bare header
+	if k == 1 {
+		plain := scan("hdr-plain", gzOf(gzTarBlocks(variants["F"], true)))
+		for hn, hf := range map[string]func(w *gzip.Writer){
+			"fname":          func(w *gzip.Writer) { w.Name = "x.tar" },
+			"fname+mtime":    func(w *gzip.Writer) { w.Name = "x.tar"; w.ModTime = time.Unix(1.5e9, 0) },
+			"fcomment":       func(w *gzip.Writer) { w.Comment = "made by hand" },
+			"fextra":         func(w *gzip.Writer) { w.Extra = []byte{'B', 'C', 2, 0, 0xff, 0xff} },
+			"fname+fcomment": func(w *gzip.Writer) { w.Name = "n"; w.Comment = "c"; w.OS = 3 },
+		} {
+			var out bytes.Buffer
+			w, _ := gzip.NewWriterLevel(&out, gzip.BestCompression)
+			hf(w)
+			w.Write(gzTarBlocks(variants["F"], true))
+			w.Close()
+			got := scan("hdr-"+strings.ReplaceAll(hn, "+", "-"), out.Bytes())
+			c.H("gzheader:" + hn + ":" + strings.Fields(got)[0])
+			if strings.HasPrefix(plain, "ok ") && got != plain {
+				c.PropFail("format", fmt.Sprintf("a tar.gz whose gzip header carries %s (bytes %x) scans to %s; with a bare header the same tar scans to %s", hn, out.Bytes()[:4], got, plain), op)
+			}
+		}
+	}
 	names := []string{"F", "G", "H", "I", "A"}
 	for i := range names {
 		for j := i + 1; j < len(names); j++ {
